@@ -329,8 +329,8 @@ func builtinArrayReverse(call FunctionCall) Value {
 			thisObject.put(upper.name, lowerValue, true)
 		case !lower.exists && upper.exists:
 			value := thisObject.get(upper.name)
+			thisObject.put(lower.name, value, true) // 15.4.4.8 step 6.i: Put, then Delete
 			thisObject.delete(upper.name, true)
-			thisObject.put(lower.name, value, true)
 		case lower.exists && !upper.exists:
 			value := thisObject.get(lower.name)
 			thisObject.delete(lower.name, true)
